@@ -237,18 +237,18 @@ theorem safe_list_step (W : World) (g : GoodParams W.P) (f : Nat) (ih : SafeAt W
           · split
             · exact safe_bindR _ _ (ih.vfor _ _ _ _ _ _) (fun _ _ => safe_prepend _ _ (ih.list _ _ _))
             · split
-              · exact safe_bindR _ _ (ih.slot _ _ _ _) (fun _ _ => safe_prepend _ _ (ih.list _ _ _))
-              · split
-                · apply safe_bindE _ _ (safe_chainSelect _ (fun e => safe_evalCondition W.P g _ e) _ _)
-                  intro ps
-                  split
-                  · exact ih.list _ _ _
-                  · exact safe_bindR _ _ (ih.asElem _ _ _ _ _) (fun _ _ => safe_prepend _ _ (ih.list _ _ _))
+              · apply safe_bindE _ _ (safe_chainSelect _ (fun e => safe_evalCondition W.P g _ e) _ _)
+                intro ps
+                split
+                · exact ih.list _ _ _
+                · exact safe_bindR _ _ (ih.asElem _ _ _ _ _) (fun _ _ => safe_prepend _ _ (ih.list _ _ _))
+                · split
                   · split
-                    · split
-                      · exact ih.list _ _ _
-                      · exact safe_bindR _ _ (ih.asElem _ _ _ _ _) (fun _ _ => safe_prepend _ _ (ih.list _ _ _))
                     · exact ih.list _ _ _
+                    · exact safe_bindR _ _ (ih.asElem _ _ _ _ _) (fun _ _ => safe_prepend _ _ (ih.list _ _ _))
+                  · exact ih.list _ _ _
+              · split
+                · exact safe_bindR _ _ (ih.slot _ _ _ _) (fun _ _ => safe_prepend _ _ (ih.list _ _ _))
                 · split
                   · exact safe_bindR _ _ (ih.tmpl _ _ _ _) (fun _ _ => safe_prepend _ _ (ih.list _ _ _))
                   · exact safe_bindR _ _ (ih.plain _ _ _ _ _) (fun _ _ => safe_prepend _ _ (ih.list _ _ _))
@@ -270,10 +270,12 @@ theorem safe_asElem_step (W : World) (_g : GoodParams W.P) (f : Nat) (ih : SafeA
   split
   · exact ih.for_ _ _ _ _ _ _
   · split
+    · exact ih.slot _ _ _ _
     · split
-      · exact ih.tmpl _ _ _ _
-      · exact ih.list _ _ _
-    · exact ih.plain _ _ _ _ _
+      · split
+        · exact ih.tmpl _ _ _ _
+        · exact ih.list _ _ _
+      · exact ih.plain _ _ _ _ _
 
 theorem safe_vfor_step (W : World) (_g : GoodParams W.P) (f : Nat) (ih : SafeAt W f) :
     ∀ ctx st tag attrs kids rest, Safe (evalVFor W (f + 1) ctx st tag attrs kids rest) := by
